@@ -7,7 +7,7 @@ from berforms import *
 from x690.types import ObjectIdentifier as OID
 
 PTYPE = {"get": GET, "multiget": GET, "getnext": GETNEXT, "multigetnext": GETNEXT, "set": SET, "multiset": SET, "bulkget": GETBULK,
-         "walk": GETNEXT, "bulkwalk": GETBULK}
+         "walk": GETNEXT, "bulkwalk": GETBULK, "bulkwalk2": GETBULK}
 
 
 async def emit_case(case):
@@ -16,7 +16,13 @@ async def emit_case(case):
     from puresnmp import Client, V1, V2C, V3, Auth, Priv
     proto = case["proto"]
     community = case.get("community", "public")
-    ag = make_agent({}, proto, community=community.encode("ascii"), engine=bytes(case.get("engine", b"\x80\x00\x1f\x88\x80verifeng")))
+    mib = {}
+    if case["op"] == "bulkwalk2":
+        # two bulk walks with different max-repetitions in progress on ONE client: each walk has a subtree of its own
+        for r, n in zip(case["oids"], case["sizes"]):
+            mib.update({tuple(r) + (i,): enc_int(i) for i in range(1, n + 1)})
+        mib[tuple(max(case["oids"]))[:-1] + (4000, 1)] = enc_int(0)      # something after the last subtree: every walk ends on a foreign name
+    ag = make_agent(mib, proto, community=community.encode("ascii"), engine=bytes(case.get("engine", b"\x80\x00\x1f\x88\x80verifeng")))
     sent = []
 
     async def sender(endpoint, packet, timeout=None, retries=None):
@@ -78,6 +84,16 @@ async def emit_case(case):
           elif op == "bulkwalk":
               async for _ in c.bulkwalk(oids, bulk_size=case["mr"]):
                   break
+          elif op == "bulkwalk2":
+              # the walks are consumed alternately (every walk needs further requests after the other ones have started)
+              its = [c.bulkwalk([o], bulk_size=m).__aiter__() for o, m in zip(oids, case["mrs"])]
+              live = list(its)
+              while live:
+                  for it in list(live):
+                      try:
+                          await it.__anext__()
+                      except StopAsyncIteration:
+                          live.remove(it)
     except Exception as e:  # noqa   the reply is irrelevant here; only what was emitted counts
         err = exc_name(e)
     finally:
@@ -90,8 +106,25 @@ async def emit_case(case):
                 f2=canon_int(case["mr"] if PTYPE[op] == GETBULK else 0),
                 oids=[oid_digits(o) for o in (sorted(case["oids"]) if op in ("walk", "bulkwalk") else case["oids"])],
                 vals=[val_form(*v) for v in vals] if is_set else [[5, []] for _ in case["oids"]])
+    nth = {}
     for k, raw in enumerate(sent):
         plain = []
+        if op == "bulkwalk2":
+            # the request belongs to the walk whose subtree it names; its j-th request continues after the (j * max-repetitions)-th instance
+            try:
+                rq = parse_community(raw) if proto in ("v1", "v2c") else parse_v3(raw, decrypt=ag._decrypt)
+                first = tuple(rq["vbs"][0][0]) if rq.get("vbs") else None
+            except Exception:  # noqa
+                first = None
+            w = [i for i, r in enumerate(case["oids"]) if first is not None and first[:len(r)] == tuple(r)]
+            if w:
+                w = w[0]
+                j = nth[w] = nth.get(w, -1) + 1
+                m = case["mrs"][w]
+                start = tuple(case["oids"][w]) + ((j * m,) if j else ())
+                base = dict(base, f2=canon_int(m), oids=[oid_digits(start)], vals=[[5, []]])
+            else:
+                base = dict(base, f2=canon_int(0), oids=[], vals=[])      # a request that belongs to no walk (or the discovery probe, handled below)
         if proto in ("v1", "v2c"):
             intended = dict(base, form="community", version=canon_int(0 if proto == "v1" else 1), community=list(community.encode("ascii")))
         else:
